@@ -803,6 +803,21 @@ func exprPoly(info *types.Info, e ast.Expr, defs map[types.Object]localDef, stop
 		case *ast.Ident, *ast.SelectorExpr:
 			if _, isSel := x.(*ast.SelectorExpr); !isSel || !isSpecType(info.TypeOf(x.(*ast.SelectorExpr).X)) {
 				if tv, ok := info.Types[e]; !ok || tv.Value == nil {
+					// (resolved forms) v.f with v a local that names an element or a field path (v := &xs[i]): xs[i].f
+					if sel, isSel := x.(*ast.SelectorExpr); isSel && defs != nil {
+						if id, ok := ast.Unparen(sel.X).(*ast.Ident); ok {
+							if d, ok := defs[info.Uses[id]]; ok && d.pos == 0 && d.n == 1 && d.rhs != nil && !partlyWritten[info.Uses[id]] {
+								r := ast.Unparen(d.rhs)
+								if u, ok := r.(*ast.UnaryExpr); ok && u.Op == token.AND {
+									r = ast.Unparen(u.X)
+								}
+								switch r.(type) {
+								case *ast.IndexExpr, *ast.SelectorExpr:
+									return polyAtom(absPath(info, r, defs, 0) + "." + sel.Sel.Name), true
+								}
+							}
+						}
+					}
 					return polyAtom(absName(info, e)), true
 				}
 			}
@@ -945,6 +960,27 @@ func exprPoly(info *types.Info, e ast.Expr, defs map[types.Object]localDef, stop
 			// a call through a function-typed parameter or local (slotAfter(...)): opaque, named as written
 			if _, isVar := info.ObjectOf(id).(*types.Var); isVar {
 				fnName = id.Name
+			}
+		}
+		// (type-named forms) the value of an unexported function of zrnt that is not read in place stands where a
+		// local of its result type would stand: a running total moved into a helper that returns it is that total
+		if polyAbstract {
+			if f := calleeFunc(info, x); f != nil && !f.Exported() && isZrnt(f) {
+				if sig, ok := f.Type().(*types.Signature); ok && sig.Results().Len() >= 1 && sig.Recv() == nil {
+					t := types.TypeString(sig.Results().At(0).Type(), func(*types.Package) string { return "" })
+					if polyAbsSeen == nil {
+						polyAbsSeen = map[types.Object]int{}
+						polyAbsPerType = map[string]int{}
+					}
+					tn := strings.TrimLeft(t, "*")
+					k, seen := polyAbsSeen[f]
+					if !seen {
+						polyAbsPerType[tn]++
+						k = polyAbsPerType[tn]
+						polyAbsSeen[f] = k
+					}
+					return polyAtom(fmt.Sprintf("\u00a7%s#%d", tn, k)), true
+				}
 			}
 		}
 		if fnName != "" {
@@ -1481,4 +1517,41 @@ func inlinableFuncs(p *Prog) map[*types.Func]inlineDecl {
 		out[f] = inlineDecl{fd, info, last.Results[0], defs}
 	})
 	return out
+}
+
+
+// absPath: the type-named text of a path (x, x.f, xs[i], &x), with locals that merely name another path read through.
+func absPath(info *types.Info, e ast.Expr, defs map[types.Object]localDef, depth int) string {
+	e = ast.Unparen(e)
+	if u, ok := e.(*ast.UnaryExpr); ok && u.Op == token.AND {
+		e = ast.Unparen(u.X)
+	}
+	switch x := e.(type) {
+	case *ast.Ident:
+		// (a slice, map or pointer local names the same memory as what it was defined from, whatever is written through it)
+		refLike := false
+		if o := info.Uses[x]; o != nil {
+			switch o.Type().Underlying().(type) {
+			case *types.Slice, *types.Map, *types.Pointer:
+				refLike = true
+			}
+		}
+		if d, ok := defs[info.Uses[x]]; ok && d.pos == 0 && d.n == 1 && d.rhs != nil && depth < 4 && (refLike || !partlyWritten[info.Uses[x]]) {
+			r := ast.Unparen(d.rhs)
+			if u, ok := r.(*ast.UnaryExpr); ok && u.Op == token.AND {
+				r = ast.Unparen(u.X)
+			}
+			switch r.(type) {
+			case *ast.IndexExpr, *ast.SelectorExpr:
+				return absPath(info, r, defs, depth+1)
+			}
+		}
+	case *ast.SelectorExpr:
+		if s, ok := info.Selections[x]; ok && s.Kind() == types.FieldVal {
+			return absPath(info, x.X, defs, depth) + "." + x.Sel.Name
+		}
+	case *ast.IndexExpr:
+		return absPath(info, x.X, defs, depth) + "[]"
+	}
+	return absName(info, e)
 }
